@@ -74,6 +74,9 @@ theorem chipScan_valid (c0 : Nat) (h0 : c0 ≤ 3) :
 /-- All chunks agree on `f` (board or chip): the order-free form of "no mismatch". -/
 def Homog (f : ChunkV → Nat) (cs : List ChunkV) : Prop := ∀ c ∈ cs, ∀ d ∈ cs, f c = f d
 
+instance (f : ChunkV → Nat) (cs : List ChunkV) : Decidable (Homog f cs) := by
+  unfold Homog; infer_instance
+
 theorem Homog.perm {f : ChunkV → Nat} {l₁ l₂ : List ChunkV} (h : l₁.Perm l₂) :
     Homog f l₁ ↔ Homog f l₂ := by
   unfold Homog
@@ -101,7 +104,6 @@ theorem all_chip0_iff (cs : List ChunkV) (hne : cs ≠ []) :
     · intro H c hc d hd; rw [H c hc, H d hd]
     · intro H c hc; exact H c hc a List.mem_cons_self
 
-open Classical in
 /-- On valid chunks the two scans cannot panic and only depend on whether all chunks agree. -/
 theorem reassembleWith_valid (cs s : List ChunkV) (hv : ∀ c ∈ cs, c.Valid) (hne : cs ≠ []) :
     reassembleWith cs s =
@@ -120,17 +122,21 @@ theorem reassembleWith_valid (cs s : List ChunkV) (hv : ∀ c ∈ cs, c.Valid) (
   have hc := chipScan_valid (chip0 cs) hc0 cs (fun c hc => (hv c hc).2.1)
   have he : cs.isEmpty = false := by cases cs <;> simp_all
   unfold reassembleWith
-  rw [he, hb, hc]
+  rw [he]
   simp only [Bool.false_eq_true, if_false]
   by_cases h1 : ∀ c ∈ cs, c.deviceId = dev0 cs
   · have h1' := (all_dev0_iff cs hne).1 h1
+    rw [if_pos h1] at hb
     by_cases h2 : ∀ c ∈ cs, c.chip = chip0 cs
     · have h2' := (all_chip0_iff cs hne).1 h2
-      simp [h1, h2, h1', h2']
+      rw [if_pos h2] at hc
+      simp [hb, hc, h1', h2']
     · have h2' : ¬Homog (·.chip) cs := fun H => h2 ((all_chip0_iff cs hne).2 H)
-      simp [h1, h2, h1', h2']
+      rw [if_neg h2] at hc
+      simp [hb, hc, h1', h2']
   · have h1' : ¬Homog (·.deviceId) cs := fun H => h1 ((all_dev0_iff cs hne).2 H)
-    simp [h1, h1']
+    rw [if_neg h1] at hb
+    simp [hb, h1']
 
 /-! ### Dense id lists -/
 
